@@ -78,3 +78,13 @@ def placement_tie(n_quick=500, n_thorough=10000):
                gen=lambda rng, tier: [gen_placement(rng, tier) for _ in range(n_quick if tier == 'quick' else n_thorough)],
                impl=sysgen.impl_assemble, case_term=sysgen.case_term, obs_term=sysgen.obs_term,
                nontrivial=lambda c: True, classify=lambda c: 'files%d' % len(c['files']), shard=100, timeout=60)
+
+
+def isa_tie(profile=None, n_quick=300, n_thorough=6000, name='isa'):
+    from . import sysisa
+    prof = profile or {}
+    return Tie(name=name, imports=['Base', 'Program', 'Match', 'ProgramIsa'], run_def='run_prog_isa', eqb='obs_prog_eqb',
+               gen=lambda rng, tier: [sysisa.gen_isa_case(rng, prof, tier) for _ in range(n_quick if tier == 'quick' else n_thorough)],
+               impl=sysgen.impl_assemble, case_term=sysisa.isa_case_term, obs_term=sysgen.obs_term,
+               nontrivial=lambda c: True,
+               classify=lambda c: 'macros' if c['isa']['macros'] else 'instrs', shard=40, timeout=60)
